@@ -208,6 +208,40 @@ def run(ctx):
                                                "(or the program is refused)" % name,
                                        "input": {"source": psrc, "seed0": pmaps["seed0"], name: m}, "kf": None})
                 break
+        # values that the analysis may refuse (or describe): a sentinel object as a default value, an enum member, a compiled pattern,
+        # a function as a default. Whatever it answers - signatures or a refusal - the answer is the same in every environment and
+        # at the second evaluation in a process (an object's address or identity must not reach a signature)
+        for qi, (qdecl, qfun) in enumerate([
+                ("_MISSING = object()\n", "def g(key, default=_MISSING):\n    return 0 if default is _MISSING else 1\n"),
+                ("import enum\nclass Color(enum.Enum):\n    RED = 1\n", "def g(key, default=Color.RED):\n    return str(default)\n"),
+                ("import re\nPAT = re.compile('a+')\n", "def g(key, default=PAT):\n    return default.pattern\n"),
+                ("def helper():\n    return 1\n", "def g(key, default=helper):\n    return default()\n"),
+                ("class Box(object):\n    pass\nBOX = Box()\n", "def g(key):\n    return str(type(BOX).__name__)\n")]):
+            qm = "c3q%d_%d" % (qi, os.getpid())
+            qsrc = "import dds\n" + qdecl + "\n" + qfun + "\ndef stats():\n    return g('a')\n\ndef f0():\n    return dds.keep('/c03/q', stats)\n"
+            for d in (base, moved):
+                with open(os.path.join(d, qm + ".py"), "w") as fh:
+                    fh.write(qsrc)
+            qmaps = {}
+            for v in variants:
+                wk = workers[v["name"]]
+                d = moved if v.get("moved") else base
+                for nth in ("", " (second evaluation in the process)"):
+                    sd = tempfile.mkdtemp(prefix="c3s_", dir=base)
+                    wk.call(cmd="store", kind=v.get("store", "memory"), internal_dir=sd + "/i", data_dir=sd + "/d")
+                    if not nth:
+                        wk.call(cmd="world", dir=d, module=qm, extmod="c3e_fixed")
+                    r = wk.call(cmd="run", entry=entry)
+                    res.evaluations += 1
+                    qmaps[v["name"] + nth] = r["paths"] if r["error"] is None else {"REFUSED": [r["error"].get("kind"), r["error"].get("code") or r["error"].get("cls")]}
+            res.nontrivial("unusual default %d" % qi)
+            res.count("programs_with_unusual_defaults")
+            for name, m in qmaps.items():
+                if m != qmaps["seed0"]:
+                    res.violations.append({"what": "the answer of the analysis (signatures or refusal) for a program with an unusual default value / variable differs "
+                                                   "between environments 'seed0' and '%s'" % name,
+                                           "input": {"source": qsrc, "seed0": qmaps["seed0"], name: m}, "kf": None})
+                    break
         if ctx["driver_ok"]:
             ans = common.drv_batch(mreqs)
             for (w, ref, pinned, pin_name, extmod), a in zip(mmeta, ans):
